@@ -342,6 +342,36 @@ pub fn insglue() -> bool {
             bad = true;
         }
     }
+    // ---- (1b) deletion markers that prune NOTHING when applied are entries like any other: stored, and announced once
+    {
+        let mut store = Store::memory();
+        store.import_namespace(ns.clone().into()).unwrap();
+        let mut replica = store.open_replica(&nsid).unwrap();
+        let (tx, rx) = async_channel::bounded(16);
+        replica.info.subscribe(tx);
+        // remote marker for a prefix nothing is held under; local deletion of a key that never existed
+        let tomb = mk(b"nothing/here/", Record::empty(now - 3));
+        let r = block_on(replica.insert_remote_entry(tomb.clone(), [7u8; 32], ContentStatus::Complete));
+        let l = block_on(replica.delete_prefix(b"never-existed", &author));
+        let mut kinds = vec![];
+        while let Ok(ev) = rx.try_recv() {
+            match ev {
+                Event::RemoteInsert { entry, .. } => kinds.push(("remote", entry.key().to_vec())),
+                Event::LocalInsert { entry, .. } => kinds.push(("local", entry.key().to_vec())),
+                _ => {}
+            }
+        }
+        let want = vec![("remote", b"nothing/here/".to_vec()), ("local", b"never-existed".to_vec())];
+        if !matches!(r, Ok(0)) || !matches!(l, Ok(0)) || kinds != want {
+            eprintln!("insglue: deletion markers that removed nothing: results {:?} {:?}, events {:?} (expected one event each)", r.is_ok(), l.is_ok(), kinds.len());
+            bad = true;
+        }
+        drop(replica);
+        if store.get_exact(nsid, author.id(), b"nothing/here/", true).unwrap().is_none() {
+            eprintln!("insglue: the deletion marker was not stored");
+            bad = true;
+        }
+    }
     // ---- (2) read-only replica
     {
         let mut store = Store::memory();
@@ -483,17 +513,68 @@ pub fn c09recid() -> bool {
     bad
 }
 
+/// C12 (subscribers): every live subscriber sees every applied entry exactly once and in order, whichever other
+/// subscriber dropped its receiver or unsubscribed (first, middle or last registered).
+pub fn c12subs() -> bool {
+    use crate::sync::Event;
+    let mut bad = false;
+    for nsubs in 2..=4usize {
+        for gone in 0..nsubs {
+            for by_unsubscribe in [false, true] {
+                let mut store = Store::memory();
+                let ns = NamespaceSecret::from_bytes(&[23u8; 32]);
+                let author = Author::from_bytes(&[24u8; 32]);
+                let mut replica = store.new_replica(ns.clone()).unwrap();
+                let mut chans: Vec<(async_channel::Sender<Event>, Option<async_channel::Receiver<Event>>)> = vec![];
+                for _ in 0..nsubs {
+                    let (tx, rx) = async_channel::bounded(64);
+                    replica.info.subscribe(tx.clone());
+                    chans.push((tx, Some(rx)));
+                }
+                if by_unsubscribe {
+                    replica.info.unsubscribe(&chans[gone].0);
+                } else {
+                    chans[gone].1 = None; // the receiver is dropped
+                }
+                let keys: [&[u8]; 3] = [b"k1", b"k2", b"k3"];
+                for k in keys {
+                    block_on(replica.insert(k, &author, Hash::new(k), k.len() as u64)).unwrap();
+                }
+                for (i, (_tx, rx)) in chans.iter().enumerate() {
+                    let Some(rx) = rx else { continue };
+                    let mut got = vec![];
+                    while let Ok(ev) = rx.try_recv() {
+                        if let Event::LocalInsert { entry, .. } = ev {
+                            got.push(entry.key().to_vec());
+                        }
+                    }
+                    let want: Vec<Vec<u8>> = if by_unsubscribe && i == gone { vec![] } else { keys.iter().map(|k| k.to_vec()).collect() };
+                    if got != want {
+                        if !bad {
+                            eprintln!("c12subs: {nsubs} subscribers, #{gone} {}: subscriber #{i} saw {} events, expected {}", if by_unsubscribe { "unsubscribed" } else { "dropped its receiver" }, got.len(), want.len());
+                        }
+                        bad = true;
+                    }
+                }
+            }
+        }
+    }
+    bad
+}
+
 pub fn run(id: &str) -> Option<bool> {
     Some(match id {
         "d3" => d3(),
         "d6" => d6(),
         "c12" => c12(),
         "c12pm" => c12pm(),
+        "c12subs" => c12subs(),
         "insglue" => insglue(),
         "c08range" => c08range(),
         "c09recid" => c09recid(),
         "c01silence" => c01silence(),
         "c01reply" => super::witness_pm::c01reply(),
+        "c02prune" => super::witness_pm::c02prune(),
         "c01session" => super::witness_pm::c01session(),
         "fp" => fp(),
         "c14" => crate::actor::verif_incrate::witness_c14(),
